@@ -41,11 +41,11 @@ func c16Setup(rc *RunCtx) simrt.Config {
 	r := rc.R
 	cfg, sname := drawSimConfig(r, 3000000)
 	cfg.TraceLimit = 2000
-	c := &c16cfg{mode: r.Weighted(3, 2, 4)}
+	c := &c16cfg{mode: r.Weighted(3, 2, 4, 3)}
 	rc.Net.ChunkMode = r.Choose(3)
 	rc.Cfg["strategy"] = sname
 	rc.Cfg["kind"] = "framing"
-	rc.Cfg["mode"] = []string{"rw", "damage", "server"}[c.mode]
+	rc.Cfg["mode"] = []string{"rw", "damage", "server", "client"}[c.mode]
 	rc.Cfg["chunk"] = rc.Net.ChunkMode
 	rc.priv = c
 	return cfg
@@ -101,9 +101,60 @@ func c16Main(rc *RunCtx) {
 		c16RW(rc)
 	case 1:
 		c16Damage(rc)
+	case 3:
+		c16Client(rc)
 	default:
 		c16Server(rc)
 	}
+}
+
+// c16Client: the upstream side. Several callers on stream transports while the
+// server kills connections (so queries are re-sent on other connections); the
+// sim server's independent framer requires every frame it receives to be exactly
+// one known query. Released buffers are poisoned, so a frame sent from a buffer
+// that was already given back to the pool arrives as garbage.
+func c16Client(rc *RunCtx) {
+	w := newW1(rc)
+	w.CheckFrames = true
+	kind := []TransportKind{TkTCP, TkReuse, TkTCPPipeline, TkPipelineStream}[simrt.Choose(4)]
+	rc.Cfg["kind"] = "framing/client " + kind.String()
+	pKill := []int{0, 30, 60}[simrt.Choose(3)]
+	plan := func(sc *simnet.Conn, nth int, call *Call, wid uint16) Action {
+		a := Action{}
+		x := simrt.Choose(100)
+		if x < pKill/2 {
+			a.CloseAfter = true
+		} else if x < pKill {
+			a.SilentKillAfter = true
+		}
+		if simrt.Choose(4) == 0 {
+			a.Delay = time.Duration(1+simrt.Choose(5)) * time.Millisecond
+		}
+		return a
+	}
+	rc.Net.Handle("tcp", srvAddr, w.Serve(ServerOpts{Plan: plan}))
+	u := w.NewTransport(kind, TransportOpts{})
+	callers := 1 + simrt.Choose(4)
+	done := make(chan struct{}, callers)
+	for ci := 0; ci < callers; ci++ {
+		ci := ci
+		n := 1 + simrt.Choose(6)
+		simrt.GoNamed(fmt.Sprintf("caller%d", ci), func() {
+			for s := 0; s < n && rc.Viol == nil; s++ {
+				call := w.NewCall(ci, s, uint16(simrt.Choose(65536)), 1)
+				w.Exchange(u, call)
+				w.CheckProvenance(call)
+				if simrt.Choose(3) == 0 {
+					simrt.Sleep(0, time.Duration(simrt.Choose(20))*time.Millisecond)
+				}
+			}
+			simrt.Send(0, done, struct{}{})
+		})
+	}
+	for i := 0; i < callers; i++ {
+		simrt.Recv(0, done)
+	}
+	u.Close()
 }
 
 func c16RW(rc *RunCtx) {
@@ -293,9 +344,13 @@ type c16handler struct {
 // Handle answers with a payload whose size and content are derived from the
 // query (question name encodes size and salt), after a PRNG delay.
 func (h *c16handler) Handle(ctx context.Context, q *dns.Msg, meta server.QueryMeta, pack func(m *dns.Msg) (*[]byte, error)) *[]byte {
-	var size, salt int
-	fmt.Sscanf(q.Question[0].Name, "s%d.k%d.", &size, &salt)
-	if d := simrt.Choose(4); d > 0 {
+	var size, salt, wait int
+	fmt.Sscanf(q.Question[0].Name, "s%d.k%d.w%d.", &size, &salt, &wait)
+	if wait > 0 {
+		// keep-alive queries: answered much later, so that nothing touches the
+		// connection's write side in the meantime
+		simrt.Sleep(0, time.Duration(wait)*time.Millisecond)
+	} else if d := simrt.Choose(4); d > 0 {
 		simrt.Sleep(0, time.Duration(d-1)*time.Millisecond)
 	}
 	r := new(dns.Msg)
@@ -330,6 +385,13 @@ func c16Server(rc *RunCtx) {
 				panic(err)
 			}
 			c := nc.(*simnet.Conn)
+			slow := simrt.Choose(3) == 0
+			if slow {
+				// the server's replies back up behind a small window and a reader
+				// that drains slower than the server's idle timeout
+				c.Peer().SendBuf = []int{64, 300, 2000}[simrt.Choose(3)]
+				simrt.Fault("slow_reader_small_window")
+			}
 			nq := 2 + simrt.Choose(7)
 			want := map[uint16]*dns.Msg{}
 			for i := 0; i < nq; i++ {
@@ -343,7 +405,36 @@ func c16Server(rc *RunCtx) {
 				c.WriteRaw(fb)
 			}
 			c.SetReadDeadline(time.Now().Add(4 * time.Second))
+			stopKeepalive := false
+			late := map[uint16]*dns.Msg{}
+			if slow {
+				c.SetReadDeadline(time.Now().Add(120 * time.Second))
+				// keep the server's read side alive while we read slowly
+				simrt.GoNamed(fmt.Sprintf("keepalive%d", ci), func() {
+					for k := 0; k < 40 && !stopKeepalive && !c.IsClosed(); k++ {
+						simrt.Sleep(0, 2*time.Second)
+						if stopKeepalive || c.IsClosed() {
+							return
+						}
+						q := mkQuery(fmt.Sprintf("s100.k%d.w60000.c%d.test.", 50+k, ci), dns.TypeTXT, uint16(1000*ci+500+k))
+						late[q.Id] = q // answered after a minute; not waited for
+						b := packOrPanic(q)
+						fb := make([]byte, 2+len(b))
+						binary.BigEndian.PutUint16(fb, uint16(len(b)))
+						copy(fb[2:], b)
+						c.WriteRaw(fb)
+					}
+				}).Daemon = true
+			}
+			nread := 0
 			for len(want) > 0 {
+				if slow && nread < 3 {
+					simrt.Sleep(0, []time.Duration{0, time.Second, 6 * time.Second, 11 * time.Second}[simrt.Choose(4)])
+				}
+				nread++
+				if slow && nread > nq {
+					stopKeepalive = true
+				}
 				frame, err := indepRead(c)
 				if err != nil {
 					rc.Fail("reply_stream_broken", "client %d: %d replies outstanding, stream error %v", ci, len(want), err)
@@ -355,6 +446,9 @@ func c16Server(rc *RunCtx) {
 					return
 				}
 				q := want[m.Id]
+				if q == nil {
+					q = late[m.Id]
+				}
 				if q == nil || len(m.Question) != 1 || m.Question[0].Name != q.Question[0].Name {
 					rc.Fail("frame_not_one_intact_reply", "client %d: frame with ID %d / question %v matches no outstanding query", ci, m.Id, m.Question)
 					return
@@ -371,6 +465,7 @@ func c16Server(rc *RunCtx) {
 				delete(want, m.Id)
 				simrt.Probe("c16.server_reply_intact")
 			}
+			stopKeepalive = true
 			c.Close()
 		})
 	}
